@@ -44,6 +44,11 @@ def run(ctx):
         ctx.run_rule("R7-oversize-gate", c02.r7_oversize, F)    # the dispatcher accepts what max_write promised
         ctx.run_rule("R5-toggles", r5_toggles, F, table)
         ctx.run_rule("R6-reinit", r6_reinit, F, table)
+        # what was negotiated stays what it was: each release path obeys its own toggle; toggles survive save/restore field by field
+        from rules import c15, c19
+        ctx.run_rule("R8-toggle-use", c15.release_toggles, F, "R8-toggle-use")
+        if any(k.startswith("api::vfs::persist::") for k in F.fns):      # feature persist (absent in configuration D)
+            ctx.run_rule("R1-options-roundtrip", c19.r1_options, F)
     finally:
         vf.NOUPD[0] = False
     ctx.assumptions += ["flag constants equal the kernel's (C13)", "later behaviour of each toggle is decided by C05/C15/C18"]
